@@ -132,6 +132,8 @@ func (v VD) Go() any {
 		return buildIntMap(v)
 	case "row":
 		return rowKindNamed(v.S).build(v.M)
+	case "mapaa", "mapas", "mapns":
+		return buildAnyMap(v)
 	case "mapis":
 		m := make(map[int]string, len(v.M))
 		for k, e := range v.M {
